@@ -2,6 +2,7 @@ import BstreamVerif.Lemmas.StepCheckSound
 import BstreamVerif.Lemmas.NewHeights
 import BstreamVerif.Lemmas.CursorLib
 import BstreamVerif.Props.C01
+import BstreamVerif.Lemmas.Discovery
 /-!
 # C04 — every delivered event carries a cursor describing the consumer position exactly
 
@@ -147,5 +148,37 @@ theorem history_cursor_lib_not_above_block (cfg : Config) (hnew : cfg.matches .n
     rcases he with he | he
     · exact ⟨fun hn => ((h1 e he).1 hn).2, (h1 e he).2⟩
     · exact h2 e he
+
+/-- **the same for the hub's configuration** (no LIB to start with, blocks held until one is discovered; hypotheses on
+    the input only): in the whole event stream the cursor LIB of a New or Irreversible event never exceeds the height
+    of the event's block — at the discovery step the New events carry the discovered LIB, which lies strictly below
+    them (or is the block itself when a block is its own LIB), afterwards `history_cursor_lib_not_above_block` applies -/
+theorem history_cursor_lib_discovery (cfg : Config) (hhold : cfg.hold = true) (hnew : cfg.matches .new = true)
+    (hundo : cfg.matches .undo = true) (hirr : cfg.matches .irreversible = true)
+    (U : Id → Option Blk) (hU : UOK U) (h : List Blk) (s : FState) (hP : PreInv U s)
+    (hin : ∀ b ∈ h, U b.id = some b) (hL : Props.C01.LibHistOK cfg s h) :
+    CursorLibOK (runHistory cfg s h).2 := by
+  induction h generalizing s with
+  | nil => intro e he; simp [runHistory] at he
+  | cons b r ih =>
+    have hd := discovery_step cfg hhold hnew hundo hirr U hU s b hP (hin b (by simp)) hL.1
+    rw [Props.C01.runHistory_cons]
+    have hafter : ∀ (P : List Id) (F : List Id), Inv (processBlock cfg s b none).1 P →
+        Inv2 U F (processBlock cfg s b none).1.db → CursorLibOK (processBlock cfg s b none).2.1 →
+        CursorLibOK ((processBlock cfg s b none).2.1 ++ (runHistory cfg (processBlock cfg s b none).1 r).2) := by
+      intro P F hI hJ hc e he hs
+      rcases List.mem_append.mp he with he | he
+      · exact hc e he hs
+      · have := history_cursor_lib_not_above_block cfg hnew hundo hirr U hU r F _ P hI hJ
+          (fun x hx => hin x (by simp [hx])) hL.2 (Or.inl (by rw [processBlock_includeInit]; exact hP.noInit)) e he
+        rcases hs with hs | hs
+        · exact Nat.le_of_lt (this.1 hs)
+        · exact Nat.le_of_eq (this.2 hs)
+    rcases hd with ⟨hP', hev⟩ | ⟨_, _, hI, hJ, _, hc⟩ | ⟨Lb, news, _, _, _, hI, hJ, _, hc⟩
+    · simp only
+      rw [hev, List.nil_append]
+      exact ih _ hP' (fun x hx => hin x (by simp [hx])) hL.2
+    · exact hafter [] [b.id] hI hJ hc
+    · exact hafter _ [Lb.id] hI hJ hc
 
 end BstreamVerif.Props.C04
